@@ -88,6 +88,26 @@ def _lind(draw):
             "secular": draw(st.booleans()), "other": other, "A": draw(gens.complex_matrix(dim))}
 
 
+def grid(tier):
+    """Deterministic Foerster-type tensors with one site far away in energy (uphill rates that the numerical integration
+    may leave with either sign), so that this corner is visited at every seed."""
+    other = [[((i + 1) * (j + 3)) % 9 - 4 for j in range(4)] for i in range(4)]
+    other = [[other[min(i, j)][max(i, j)] for j in range(4)] for i in range(4)]
+    A = [[[(2 * i + j) % 5 - 2, (i + 3 * j) % 3 - 1] for j in range(4)] for i in range(4)]
+    for gap in (1000, 1500, 2000, 2500, 3000, 3500):
+        for sign in (1, -1):
+            for T in (77, 300):
+                spec = {"E": [12000, 12100 + sign * gap, 12250], "J": [[0, 80, 40], [80, 0, -60], [40, -60, 0]],
+                        "d": [[0.0, 0.0, 0.0]] * 3, "T": T,
+                        "bath": [{"ftype": "OverdampedBrownian", "reorg": 30 + 20 * i, "cortime": 50 + 10 * i, "matsubara": 10}
+                                 for i in range(3)],
+                        "time": [0.0, 150, 2.0]}
+                for theory, td, cc in (("stF", False, None), ("stF", True, None), ("cRF", False, 100)):
+                    yield {"kind": "system", "spec": spec, "theory": theory, "td": td, "as_ops": False, "secular": False,
+                           "resecularize": [], "legacy_false": False, "cutoff_time": None, "coupling_cutoff": cc,
+                           "route": "opensystem", "prior_call": None, "reinitialize": False, "other": other, "A": A}
+
+
 def strategy(tier):
     big = tier == "thorough"
     return st.one_of(_system(big), _system(big), _system(big), _lind())
